@@ -15,6 +15,21 @@
 (*   r.cberr_at  the callback with this number returned an error (0: none) *)
 (*   r.fallback  a loader for other copies was available                   *)
 (*   r.ret    "nil" | "err"  what the call returned                        *)
+(* Records of Repository.LoadBlobsFromPack on a real repository (variant    *)
+(* "repo", the fallback is the real LoadBlob) list every stored copy of the *)
+(* requested blobs instead:                                                *)
+(*   r.copies <<token, where, offset, length, damaged, packfails>>, where   *)
+(*            "s": in the streamed pack | "o": in another pack; damaged: a  *)
+(*            byte of the copy is flipped in every read; packfails (other   *)
+(*            packs): every download of that pack fails                     *)
+(*   r.sfault fault of the streamed pack: "none" | "flip" (some copies are  *)
+(*            damaged) | "packfail" (every download from the k-th on fails; *)
+(*            r.loads has all downloads of the streamed pack, also those of *)
+(*            LoadBlob)                                                     *)
+(* A blob may be stored several times in the streamed pack and in other    *)
+(* packs, with different stored lengths (compressed / uncompressed).  Which *)
+(* copy is streamed is not specified: an error callback is a violation     *)
+(* exactly when a usable copy exists whatever copy was streamed.            *)
 (* How the code splits the request into downloads is not specified here    *)
 (* (gaps > 1 MiB, ranges > 32 MiB are optimisations): the downloads are    *)
 (* taken from the record and only their consequences are judged.           *)
@@ -43,6 +58,27 @@ Expected(r, b) ==
   THEN (IF r.fallback /\ HasCopy(b) THEN "ok" ELSE "err")       \* falls back to another stored copy, else an error
   ELSE "ok"
 
+\* ---- repository scenarios: the copies are listed in the record
+CopiesOf(r, tok) == {c \in Range(r.copies) : c[1] = tok}
+CopyInFailedLoad(r, c) ==
+  \E i \in DOMAIN r.loads : r.loads[i][3] = "fail" /\ c[3] >= r.loads[i][1] /\ c[3] + c[4] <= r.loads[i][1] + r.loads[i][2]
+
+\* the blob has to be delivered with its plaintext (an error callback is a violation):
+\*  - an undamaged copy lies in another pack that can be downloaded, or
+\*  - the streamed pack can always be downloaded and holds an undamaged copy, or
+\*  - the streamed pack became unreadable, but no download covering a copy of the blob failed (downloads of that
+\*    pack fail from some point on for good: once a copy was in a failed download, no copy of that pack is readable)
+MustDeliver(r, tok) ==
+  LET cs == CopiesOf(r, tok)
+  IN \/ \E c \in cs : c[2] = "o" /\ ~c[5] /\ ~c[6]
+     \/ r.sfault # "packfail" /\ \E c \in cs : c[2] = "s" /\ ~c[5]
+     \/ r.sfault = "packfail" /\ ~\E c \in cs : c[2] = "s" /\ CopyInFailedLoad(r, c)
+
+CbOK(r, i) ==
+  IF r.variant = "repo"
+  THEN r.cbs[i][2] = "err" => ~MustDeliver(r, r.cbs[i][1])       \* falls back to whatever usable copy is stored
+  ELSE r.cbs[i][2] = Expected(r, ReqOf(r, r.cbs[i][1]))
+
 RecOK(r) ==
   LET ReqToks == {Tok(b) : b \in Range(r.req)}
       CbToks  == {r.cbs[i][1] : i \in DOMAIN r.cbs}
@@ -50,7 +86,7 @@ RecOK(r) ==
      /\ CbToks \subseteq ReqToks                                  \* only requested blobs
      /\ Len(r.cbs) = Cardinality(CbToks)                          \* at most once each
      /\ \A i \in DOMAIN r.cbs : r.cbs[i][2] # "wrong"             \* never foreign bytes without an error
-     /\ \A i \in DOMAIN r.cbs : r.cbs[i][2] = Expected(r, ReqOf(r, r.cbs[i][1]))
+     /\ \A i \in DOMAIN r.cbs : CbOK(r, i)
      /\ (CbAborted(r) => Len(r.cbs) = r.cberr_at /\ r.ret = "err")   \* callback error: abort, nothing more delivered
      /\ (r.ret = "nil" => CbToks = ReqToks)                        \* success means exactly once for every requested blob
      /\ ((~CbAborted(r) /\ ~AnyFailedLoad(r)) => r.ret = "nil")    \* damaged blobs alone do not fail the call
